@@ -154,10 +154,70 @@ def run(ctx, repo, tier):
     if len(eg) != 1:
         ctx.inconclusive("PARITY", "C14.decomp.eigs", "eigs(...) call not found", dw, witness=f"{len(eg)} calls")
     else:
-        a0 = eg[0].args[0]
+        from ..astutil import Canon
+        defs_gd = Canon.single_defs(gd.node.body)
+        cgd = Canon(defs_gd)
+        a0 = eg[0].args[0] if eg[0].args else {k.arg: k.value for k in eg[0].keywords}.get("A")
         inv = 0
-        e = a0
-        while True:
+        e = cgd.expand(a0) if a0 is not None else None
+
+        def parity_of(expr):
+            """number of transpositions applied to self.matrix_to_decompose inside expr (None if the matrix does not occur)"""
+            best = None
+            for n in ast.walk(expr):
+                if isinstance(n, ast.Attribute) and src(n) == "self.matrix_to_decompose":
+                    best = 0 if best is None else best
+            if best is None:
+                return None
+            # count .T / .transpose() wrappers directly around the occurrence
+            cnt = []
+
+            def rec(x, depth):
+                if isinstance(x, ast.Attribute) and src(x) == "self.matrix_to_decompose":
+                    cnt.append(depth)
+                    return
+                for ch in ast.iter_child_nodes(x):
+                    d2 = depth
+                    if isinstance(x, ast.Attribute) and x.attr == "T" and ch is x.value:
+                        d2 = depth + 1
+                    if isinstance(x, ast.Call) and isinstance(x.func, ast.Attribute) and x.func.attr == "transpose" and ch is x.func:
+                        d2 = depth + 1
+                    if isinstance(x, ast.Attribute) and x.attr == "transpose" and ch is x.value:
+                        d2 = depth
+                    rec(ch, d2)
+            rec(expr, 0)
+            return cnt
+        # a user-supplied operator for the shift-invert mode must be built from the same (transposed) matrix
+        opinv = {k.arg: k.value for k in eg[0].keywords}.get("OPinv")
+        if opinv is not None:
+            # all local definitions that can reach OPinv (flow-insensitive closure over names)
+            reach = set()
+            work = [opinv]
+            all_defs = {}
+            for n in ast.walk(gd.node):
+                if isinstance(n, ast.Assign) and len(n.targets) == 1 and isinstance(n.targets[0], ast.Name):
+                    all_defs.setdefault(n.targets[0].id, []).append(n.value)
+            pars = []
+            seen_names = set()
+            while work:
+                x = work.pop()
+                pz = parity_of(x)
+                if pz:
+                    pars += pz
+                for nm in {n.id for n in ast.walk(x) if isinstance(n, ast.Name)} - seen_names:
+                    seen_names.add(nm)
+                    work += all_defs.get(nm, [])
+            ctx.instance("PARITY")
+            if not pars:
+                ctx.inconclusive("PARITY", "C14.decomp.opinv", "origin of the OPinv operator not recognised", dw, src(opinv)[:120])
+            elif any(p_ % 2 == 0 for p_ in pars):
+                ctx.violate("PARITY", "C14.decomp.opinv", "the shift-invert operator handed to eigs is built from the UNTRANSPOSED rate matrix "
+                            "while eigs is given the transpose: with sigma set the returned vectors are right eigenvectors (constant "
+                            "vector for eigenvalue 0), not the stationary density", dw, src(eg[0])[:160],
+                            witness=f"transposition counts on the paths into OPinv: {sorted(set(pars))}")
+            else:
+                ctx.ok("PARITY", "C14.decomp.opinv", "the shift-invert operator is built from the transposed matrix as well", dw)
+        while e is not None:
             if isinstance(e, ast.Attribute) and e.attr == "T":
                 inv += 1
                 e = e.value
@@ -166,13 +226,13 @@ def run(ctx, repo, tier):
                 e = e.func.value
             else:
                 break
-        base_ok = src(e) == "self.matrix_to_decompose"
+        base_ok = e is not None and src(e) == "self.matrix_to_decompose"
         if base_ok:
             ctx.check(inv % 2 == 1, "PARITY", "C14.decomp.transpose", "the TRANSPOSE of the rate matrix is decomposed (odd transpose count): "
                       "the returned vectors are left eigenvectors, i.e. the stationary density for the largest eigenvalue", dw, src(eg[0])[:160],
                       witness=f"{inv} transposition(s) of the matrix before eigs")
         else:
-            ctx.inconclusive("PARITY", "C14.decomp.transpose", "argument of eigs not recognised", dw, src(a0))
+            ctx.inconclusive("PARITY", "C14.decomp.transpose", "argument of eigs not recognised", dw, src(a0) if a0 is not None else "")
         tgt = getattr(eg[0], "_parent", None)
         names = [src(t) for t in tgt.targets[0].elts] if isinstance(tgt, ast.Assign) and isinstance(tgt.targets[0], ast.Tuple) else None
     # sorting
@@ -249,6 +309,9 @@ def run(ctx, repo, tier):
         c05_analyse(ctx, repo, prop)
     # ------------------------------------------------------------ inherited: folded rotation block
     check_fold(ctx, repo, "C14")
+    # ------------------------------------------------------------ inherited: cell order and value of the saved volumes (C02)
+    from .C02 import volumes_check
+    volumes_check(ctx, repo, "C14")
     # ------------------------------------------------------------ inherited: the SQRA kernel itself (C01) on matrices as loaded from .npz
     # (detailed balance w.r.t. V*exp(-E/RT) and zero row sums are properties of that formula; an algebraically equal rewrite that
     #  exponentiates single-cell energies is rejected there because it is not evaluable for large |E|)
